@@ -143,16 +143,44 @@ def h_freeline(params, line: str, pos: int, allow_empty: bool):
 def h_edit(params, pkg: str, ver: str, dist: str, urg: str, change: str, op: int):
     """new_block / add_change / attribute assignment with grammar-valid symbolic strings."""
     lens = params["lens"]
+    sym = params.get("sym", ["pkg", "ver", "dist", "urg", "change"])
+    # components not listed in `sym` are pinned to concrete text (fewer symbolic strings, faster paths)
+    if "pkg" not in sym:
+        assume(pkg == "")
+        pkg = "newpkg"
+    if "ver" not in sym:
+        assume(ver == "")
+        ver = "2.0-1"
+    if "dist" not in sym:
+        assume(dist == "")
+        dist = "unstable"
+    if "urg" not in sym:
+        assume(urg == "")
+        urg = "medium"
+    if "change" not in sym:
+        assume(change == "")
+        change = "text"
     for s, n, kind in ((pkg, lens[0], "pkg"), (ver, lens[1], "ver"), (dist, lens[2], "dist"), (urg, lens[3], "urg")):
-        assume(len(s) == n)
-        assume(valid_component(kind, s))
-    sp = spec_parse(ver)
-    assume(sp is not None and sp != "edge")
-    assume(len(change) == lens[4])
-    assume(no_boundary(change))
+        if kind in sym:
+            assume(len(s) == n)
+            assume(valid_component(kind, s))
+    if "ver" in sym:
+        sp = spec_parse(ver)
+        assume(sp is not None and sp != "edge")
+    if "change" in sym:
+        assume(len(change) == lens[4])
+        assume(no_boundary(change))
     assume(0 <= op < 4)
-    parsed = params["start"] == "parsed"
-    c = Changelog(BASE[:6]) if parsed else Changelog()
+    if "op" in params:
+        assume(op == params["op"])
+    parsed = params["start"] in ("parsed", "truncated")
+    if params["start"] == "truncated":
+        # a changelog whose (only) block ended at EOF without a trailer, read leniently
+        with warnings.catch_warnings(record=True):
+            warnings.simplefilter("always")
+            c = Changelog(BASE[:3])
+    else:
+        c = Changelog(BASE[:6]) if parsed else Changelog()
     author, date = "C D <c@d.e>", "Mon, 01 Jan 2024 00:00:00 +0000"
     if op == 0:
         c.new_block(package=pkg, version=ver, distributions=dist, urgency=urg, author=author, date=date)
@@ -167,6 +195,8 @@ def h_edit(params, pkg: str, ver: str, dist: str, urg: str, change: str, op: int
         c.version = ver
         c.distributions = dist
         c.urgency = urg
+        c.author = author
+        c.date = date
         c.add_change("  * " + change)
     else:
         c.new_block()
@@ -218,8 +248,13 @@ def partitions(tier, seed):
                 continue
             P.append(dict(name="free/len%d/pos%d" % (ln, pos), harness="h_freeline", params=dict(len=ln, pos=pos), budget=80 if q else 1500, reach=[],
                           bounds="one arbitrary line of %d characters inserted at position %d of a well-formed changelog" % (ln, pos)))
-    for start in ("empty", "parsed"):
-        for lens in (([1, 1, 1, 1, 1],) if q else ([1, 1, 1, 1, 1], [2, 1, 1, 1, 0], [1, 2, 1, 1, 2], [1, 1, 2, 2, 1])):
-            P.append(dict(name="edit/%s/%s" % (start, "-".join(map(str, lens))), harness="h_edit", params=dict(start=start, lens=lens),
-                          budget=100 if q else 1800, reach=[], bounds="editing calls with symbolic package/version/distribution/urgency/change of lengths %s" % lens))
+    for start in ("empty", "parsed", "truncated"):
+        for op in range(4):
+            if op == 2 and start == "empty":
+                continue
+            for sym in ((["change"], ["pkg"]) if q else (["change"], ["pkg"], ["ver"], ["dist", "urg"], ["pkg", "change"])):
+                for ln in ((1,) if q else (1, 2)):
+                    P.append(dict(name="edit/%s/op%d/%s/len%d" % (start, op, "+".join(sym), ln), harness="h_edit",
+                                  params=dict(start=start, lens=[ln] * 5, op=op, sym=sym), budget=60 if q else 900, reach=[],
+                                  bounds="%s changelog, editing sequence %d, symbolic %s of %d chars" % (start, op, "+".join(sym), ln)))
     return P
